@@ -48,6 +48,9 @@ class Builder:
         self.ctx = ctx
         self.vars = {}
 
+    def hint(self, name, values):
+        """interesting values of an input (used by the bounded stand-in's sampler only)"""
+
     def int(self, name, lo=None, hi=None):
         v = z3.Int(name)
         self.vars[name] = v
